@@ -12,6 +12,24 @@ def has_guard(gs, pat, truth, b=None):
     return None
 
 
+_CMP_EQUIV = {
+    # (op, truth) -> list of equivalent (op, swapped?, truth)
+    ("Le", True): [("Le", False, True), ("Gt", False, False), ("Ge", True, True), ("Lt", True, False)],
+    ("Lt", True): [("Lt", False, True), ("Ge", False, False), ("Gt", True, True), ("Le", True, False)],
+}
+
+
+def has_cmp_guard(gs, op, a, b, bind=None):
+    """a <op> b holds on this edge, whichever of the equivalent spellings the source uses
+    (a <= b, !(a > b), b >= a, !(b < a))"""
+    for op2, swapped, truth in _CMP_EQUIV[(op, True)]:
+        pat = P.bin(op2, b, a) if swapped else P.bin(op2, a, b)
+        m = has_guard(gs, pat, truth, bind)
+        if m is not None:
+            return m
+    return None
+
+
 def sw(e):
     return ("switchval", ("discr", e))
 
@@ -170,8 +188,8 @@ def rule_I3(ctx, F):
         want_len = P.cast(P.bin("Add", OFF, K), "usize")
         ctx.ob(unify(want_len, le[2][1]) is not None, "mmap-length-formula", lloc, "len(%s) ; required (offset_len + (MINIMUM_MMAP_SIZE - 1)) as usize" % show(le[2][1])[:160])
         gs = guards_at(mm, bi)
-        guard = P.bin("Le", OFF, P.bin("Sub", P.cast(("const", name_ends("isize>::MAX"), W()), "u64"), K))
-        ctx.ob(has_guard(gs, guard, True) is not None, "mmap-usize-cast-guarded", lloc, "cast dominated by offset_len <= isize::MAX - k")
+        bound = P.bin("Sub", P.cast(("const", name_ends("isize>::MAX"), W()), "u64"), K)
+        ctx.ob(has_cmp_guard(gs, "Le", OFF, bound) is not None, "mmap-usize-cast-guarded", lloc, "cast dominated by offset_len <= isize::MAX - k")
         ctx.ob(has_guard(gs, sw(se), 0) is not None and has_guard(gs, P.bin("Eq", OFF, P.const(0)), False) is not None, "mmap-only-after-nonzero-seek", lloc,
                "mapping attempted only on seek Ok(n), n != 0")
     # every Ok(None) is: seek failed | seek returned 0 | after rewind()? succeeded
@@ -194,7 +212,9 @@ def rule_I3(ctx, F):
         elif e[0] == "adt" and e[2] == "Ok":
             mp = e[4][0]
             ok = mp[0] == "adt" and mp[2] == "Some" and mp[4][0][0] == "path" and "map" in show(mp[4][0])
-            ctx.ob(ok, "mmap-some-is-the-mapping", where, "Ok(%s)" % show(mp)[:100])
+            ctx.ob(ok, "mmap-some-is-the-mapping", where,
+                   "Ok(Some(mapping)) on the map() success edge" if ok else
+                   "Ok(%s): an Option that may be None is returned without the seek-failed / zero / rewind()? guarantee -- the caller would fall back to reads from a moved cursor" % show(mp)[:80])
     ctx.floor("Ok(None) exits of maybe_mmap_file", n_none, 3)
     # callers
     for name, upd in (("Hasher::update_mmap", "Hasher::update"), ("Hasher::update_mmap_rayon", "Hasher::update_rayon")):
